@@ -732,8 +732,10 @@ impl Oracle {
                     }
                 }
             }
+            // adding / inserting a bar that is a member already has no effect (doc comments of
+            // MultiProgress::add/insert*; fix bee77c9): nothing moves, nothing is painted
+            Op::Insert(_, b) if self.place[*b] == Place::Member => {}
             Op::Insert(loc, b) => {
-                // re-adding a member leaves its old slot behind (documented as "no effect"): not generated
                 if self.place[*b] == Place::Standalone {
                     self.display.retain(|i| i.bar != *b);
                 }
